@@ -97,6 +97,29 @@ def run(rep, tier):
     rep.check(ok, "R16.2", "node-content", "node carries Mass (double) and Name (string) of the bead",
               "BeadStructure::BeadInfoToGraphNode_ builds the node from %s (setters %s): structures whose bead names or masses differ are not told apart" % (stores, sorted(calls)), b2g.loc(), sample=True)
 
+    # R16.2 (second half): every bead gets the node built from ITS OWN content - one node per bead, not one per name/type
+    ig = F.one(C + "BeadStructure::InitializeGraph_") if F.find(C + "BeadStructure::InitializeGraph_") else None
+    if ig is None:
+        rep.broken("R16.2", "BeadStructure::InitializeGraph_ not found")
+    else:
+        rep.analysed(ig)
+        fig = Fold(ig, inline=False).run()
+        nst = [e for e in fig.events if e["kind"] == "store" and re.match(r"^graphnodes_\[", e["target"])]
+        lps = [l for l in getattr(fig, "loops", []) if str(l.get("range")) == "beads_" and l.get("var") is not None]
+        okn, whyn = len(nst) == 1 and len(lps) == 1, "expected one store into graphnodes_ inside the loop over beads_ (stores %d, loops %d)" % (len(nst), len(lps))
+        if okn:
+            var = str(lps[0]["var"]).split("@")[0]
+            e = nst[0]
+            want_v = "BeadInfoToGraphNode_(this, %s.second)" % var
+            in_loop_ = any(isinstance(g_[0], tuple) and g_[0] and g_[0][0] == "loop" and g_[0][1] == lps[0]["lid"] for g_ in e["guards"])
+            inner_guards = [g_ for g_ in e["guards"] if not (isinstance(g_[0], tuple) and g_[0] and g_[0][0] == "loop") and "graphUpToDate" not in str(g_[0])]
+            okn = in_loop_ and not inner_guards and nows(e["target"]) == "graphnodes_[%s.first]" % var and nows(str(e["value"])) == nows(want_v)
+            whyn = "vertex %s receives %s%s; required: the node built from that bead's own name and mass, for every bead" % (
+                e["target"], str(e["value"])[:100], (" under %s" % guard_strs(fig, inner_guards)) if inner_guards else "")
+        rep.check(okn, "R16.2", "node-per-bead", "graphnodes_[id] = BeadInfoToGraphNode_(that bead) for every bead", "BeadStructure::InitializeGraph_: " + whyn +
+                  " (beads that share a name but differ in mass would share one node: structures with different mass multisets compare equal, and the result depends on the iteration order of beads_)",
+                  ig.loc(), sample=True)
+
     # ---------------------------------------------------------------- R16.3
     dv = F.one(T + "GraphDistVisitor::exploreNode")
     rep.analysed(dv)
